@@ -23,7 +23,7 @@ type c02Case struct {
 	P      *hx.Program `json:"p"`
 	Extra  []int       `json:"extra"` // indices into c02Snippets appended to the program
 	Strict bool        `json:"strict,omitempty"`
-	Child  bool        `json:"child,omitempty"` // also render in a fresh process
+	Child  bool        `json:"child,omitempty"`  // also render in a fresh process
 	Delims bool        `json:"delims,omitempty"` // every engine is configured with Delims("<<", ">>", "<%", "%>") and the template is written with them
 }
 
